@@ -189,3 +189,42 @@ func (f *Fn) UnderCondFalse(l Loc, substrs ...string) bool {
 	}
 	return false
 }
+
+// UnderCondArmAfter is UnderCond / UnderCondFalse restricted to branches that are themselves
+// dominated by an occurrence of `after` (the test of a value produced by that event).
+func (f *Fn) UnderCondArmAfter(l Loc, arm bool, after Matcher, substrs ...string) bool {
+	as := f.Find(after)
+	for _, b := range f.live {
+		c := condOf(b)
+		if c == nil || len(b.Succs) != 2 {
+			continue
+		}
+		txt := types.ExprString(c)
+		all := true
+		for _, s := range substrs {
+			if !strings.Contains(txt, s) {
+				all = false
+			}
+		}
+		if !all {
+			continue
+		}
+		dominated := false
+		for _, a := range as {
+			if a.Blk == b || f.BlockDom(a.Blk, b) {
+				dominated = true
+			}
+		}
+		if !dominated {
+			continue
+		}
+		s := b.Succs[0]
+		if !arm {
+			s = b.Succs[1]
+		}
+		if len(f.predsOf(s)) == 1 && f.BlockDom(s, l.Blk) {
+			return true
+		}
+	}
+	return false
+}
